@@ -1,5 +1,60 @@
-/-  C03/Lit — literal values (placeholder until built). -/
+/-
+  C03/Lit — driver part for literal values.
+    num <hex of literal text>      reply: f64 bits | error
+    str <hex of the text between the quotes>   reply: s:<hex bytes> | error
+-/
+import OttoVerif.Base.Proto
+import OttoVerif.C03.LitModel
+import OttoVerif.C03.LitSpec
 namespace OttoVerif.C03.Lit
-def handleNum (_ws : List String) : String := "bad-op bad-op -"
-def handleStr (_ws : List String) : String := "bad-op bad-op -"
+open OttoVerif OttoVerif.Proto OttoVerif.F64
+
+def numOut : Option FV → String | some v => f64Out v | none => "error"
+def strOut : Option (List Nat) → String | some b => "s:" ++ bytesOut b | none => "error"
+
+/-- region `octal_literal_overflow`: a legacy octal literal ≥ 2^63: ParseInt overflows and ParseFloat reads the digits as DECIMAL.
+    region `hex_literal_rounding`: a hex literal ≥ 2^63 (so ParseInt overflows and the float loop runs) that is not
+    exactly representable — the per-digit rounding can differ from the single correct rounding -/
+def devNum (bs : List Nat) : String :=
+  match bs with
+  | 48 :: x :: ds =>
+    if (x = 120 ∨ x = 88) ∧ !ds.isEmpty ∧ ds.all (fun c => (LitSpec.hexVal c).isSome) then
+      let v := LitSpec.digitsVal 16 ds
+      if v ≥ 2^63 ∧ v % 2^(Nat.log2 v - 52) ≠ 0 then "hex_literal_rounding" else "-"
+    else if LitSpec.isDec x ∧ (x :: ds).all LitSpec.isOctD ∧ LitSpec.digitsVal 8 (x :: ds) ≥ 2^63 then "octal_literal_overflow"
+    else "-"
+  | _ => "-"
+
+/-- backslash parity matters: scan escape by escape -/
+def scanEsc (fuel : Nat) (s : List Nat) (f : Nat → List Nat → Bool) : Bool :=
+  match fuel, s with
+  | 0, _ => false
+  | _, [] => false
+  | fuel+1, 92 :: e :: r => f e r || scanEsc fuel r f
+  | fuel+1, _ :: r => scanEsc fuel r f
+
+def devStr (rs : List Nat) : String :=
+  let n := rs.length + 1
+  let sur := scanEsc n rs fun e r => e == 117 && (match LitSpec.hexU 4 r with | some v => decide (0xD800 ≤ v ∧ v ≤ 0xDFFF) | none => false)
+  let oct := scanEsc n rs fun e r => decide (52 ≤ e ∧ e ≤ 55) && (match r with | a :: b :: _ => LitSpec.isOctD a && LitSpec.isOctD b | _ => false)
+  let lsps := scanEsc n rs fun e _ => e == 0x2028 || e == 0x2029
+  let ds := (if sur then ["surrogate_escape"] else []) ++ (if oct then ["octal_escape_4to7"] else []) ++ (if lsps then ["line_continuation_ls_ps"] else [])
+  if ds.isEmpty then "-" else ",".intercalate ds
+
+def handleNum (ws : List String) : String :=
+  match ws with
+  | [h] => match bytes? (h.drop 1).toString with
+    | some bs => numOut (LitModel.parseNumberLiteral bs) ++ " " ++ numOut (LitSpec.numberValue bs) ++ " " ++ devNum bs
+    | none => "bad-request bad-request -"
+  | _ => "bad-request bad-request -"
+
+def handleStr (ws : List String) : String :=
+  match ws with
+  | [h] => match bytes? (h.drop 1).toString with
+    | some bs =>
+      let rs := Str.decodeRunes bs
+      strOut (LitModel.parseStringLiteral bs) ++ " " ++ strOut ((LitSpec.sv (rs.length + 1) rs).map Str.bytesOfUnits) ++ " " ++ devStr rs
+    | none => "bad-request bad-request -"
+  | _ => "bad-request bad-request -"
+
 end OttoVerif.C03.Lit
